@@ -721,6 +721,7 @@ type txHistory struct {
 	newCalls    []Callback // HandleTx on h1
 	updates     []Callback // HandleTxUpdate on h1
 	firstBodyAt time.Duration // node consumed first body (or local submission); -1 never
+	firstBodyConn *PeerConn   // the connection that body came in on (nil: local submission)
 	trustedAt   time.Duration // node consumed trusted inv or body; -1 never
 	localAt     time.Duration
 	bodySources []string
@@ -746,6 +747,9 @@ func (tr *txRun) histories() map[bitcoin.Hash32]*txHistory {
 		switch m := ev.Msg.(type) {
 		case *wire.MsgTx:
 			if h := hs[*m.TxHash()]; h != nil {
+				if h.firstBodyAt < 0 || at < h.firstBodyAt {
+					h.firstBodyConn = ev.Conn
+				}
 				h.firstBodyAt = minT(h.firstBodyAt, at)
 				h.bodySources = append(h.bodySources, ev.Conn.P.Name)
 				if ev.Conn.P.Trusted {
